@@ -814,6 +814,11 @@ def image_of_mapped(engine, ctx, m: V.MappedIter):
             if gen.ifs:
                 raise EngineLimit("filtered generator into set()")
             v = engine.eval(ctx, m.node.elt, cenv)
+        if isinstance(v, str) or (isinstance(v, z3.ExprRef) and z3.is_string(v)):
+            # a set of strings (e.g. the root namespace names of a list of definitions)
+            result.term = z3.K(z3.StringSort(), z3.BoolVal(False))
+            result.elem_sort = z3.StringSort()
+            v = V.Str.unwrap(v)
         ctx.collector.add(ctx, result, v)
 
     run_under_binding(engine, ctx, b, body)
@@ -837,7 +842,27 @@ def filter_iter(engine, ctx, fn, it):
             if ctx.decide(lift_bool_truth(engine, ctx, engine.call(ctx, fn, [x], {}))):
                 out.append(x)
         return PyList(out)
+    if isinstance(it, SymSeq):
+        return filter_symbolic(engine, ctx, fn, it)
     raise EngineLimit("filter over a symbolic domain")
+
+
+def filter_symbolic(engine, ctx, fn, src: SymSeq):
+    """filter(pred, seq) over a symbolic sequence: the predicate is evaluated once for an arbitrary element (it must be
+       a branch-free boolean expression of the element: `and`/`or` are evaluated without short-circuit forks, which is
+       only accepted when no operand branches or raises); the result is the canonical order-preserving subsequence."""
+    b = bind_domain(engine, ctx, src)
+    holder = {}
+
+    def body():
+        ctx.pure_bool = getattr(ctx, "pure_bool", 0) + 1
+        try:
+            holder["cond"] = lift_bool(lift_bool_truth(engine, ctx, engine.call(ctx, fn, [b.value], {})))
+        finally:
+            ctx.pure_bool -= 1
+
+    run_under_binding(engine, ctx, b, body)
+    return canonical_filter(ctx, src, holder["cond"], b.consts[0])
 
 
 # ----------------------------------------------------------------------------------------------------------------
